@@ -215,13 +215,50 @@ PH_SET = {_canon("if self._array is None:\n    if isinstance(other, xr.DataArray
                  "    self.array += other\nelse:\n    self.array_3d += other")}
 BASE_IADD = {_canon("if self._array is not None:\n    self.array += other\nelse:\n    self.array = other"),
              _canon("if self._array is None:\n    self.array = other\nelse:\n    self.array += other")}
-BASE_IADD_COPY = set()
-for _v in ("new_array", "new", "result", "array"):
-    for _c in ("self._array.copy()", "np.copy(self._array)", "self.array.copy()", "np.array(self._array)"):
-        BASE_IADD_COPY.add(_canon(f"if self._array is not None:\n    {_v} = {_c}\n    {_v} += other\n    self.array = {_v}\n"
-                                  "else:\n    self.array = other"))
-        BASE_IADD_COPY.add(_canon(f"if self._array is None:\n    self.array = other\nelse:\n    {_v} = {_c}\n    {_v} += other\n"
-                                  f"    self.array = {_v}"))
+COPY_EXPRS = {"self._array.copy()", "np.copy(self._array)", "self.array.copy()", "np.array(self._array)",
+              "np.array(self._array, copy=True)", "self._array.copy(order=\"K\")"}
+
+
+def is_copy_branch(stmts: list[ast.stmt]) -> bool:
+    """`v = <copy of the stored array>; v += other; self.array = v`  (any local name v)"""
+    if len(stmts) != 3:
+        return False
+    a, b, c = stmts
+    if not (isinstance(a, ast.Assign) and len(a.targets) == 1 and isinstance(a.targets[0], ast.Name)
+            and norm(a.value) in COPY_EXPRS):
+        return False
+    v = a.targets[0].id
+    if v in ("self", "other"):
+        return False
+    if not (isinstance(b, ast.AugAssign) and isinstance(b.op, ast.Add) and isinstance(b.target, ast.Name)
+            and b.target.id == v and norm(b.value) == "other"):
+        return False
+    return norm(c) == f"self.array = {v}"
+
+
+def base_iadd_kind(fn: ast.FunctionDef) -> str:
+    if [a.arg for a in fn.args.args] != ["self", "other"]:
+        fail(fn, f"ArrayBase.{fn.name} signature")
+    body = [st for st in body_no_doc(fn)]
+    if len(body) != 2 or norm(body[1]) != "return self" or not isinstance(body[0], ast.If):
+        fail(fn, f"ArrayBase.{fn.name}: expected one if/else and `return self`")
+    st = body[0]
+    t = norm(st.test)
+    if t == "self._array is not None":
+        init, empty = st.body, st.orelse
+    elif t == "self._array is None":
+        init, empty = st.orelse, st.body
+    else:
+        fail(st, f"ArrayBase.{fn.name}: the test must be on `self._array is [not] None`")
+    if [norm(x) for x in empty] != ["self.array = other"]:
+        fail(st, f"ArrayBase.{fn.name}: an empty container must take `self.array = other`")
+    if [norm(x) for x in init] == ["self.array += other"]:
+        return "BIInPlace"
+    if is_copy_branch(init):
+        return "BIOnCopy"
+    fail(st, f"ArrayBase.{fn.name} must be `self.array += other` or the addition on a copy followed by `self.array = <copy>`")
+
+
 BASE_EQ_LEFT = [[_canon("is_true = type(self) is type(other) and self.shape == other.shape"),
                  _canon("if is_true and self._array is not None:\n    is_true = np.array_equal(self.array, other.array)"),
                  _canon("return is_true")]]
@@ -475,17 +512,7 @@ def extract(repo: Path) -> dict:
         fail(init, "ArrayBase.__init__ must set `self._array = None` and `self._shape = shape`")
 
     for nm, key in (("__iadd__", "b_iadd"), ("__add__", "b_add")):
-        fn = find_func(tree, nm, "ArrayBase")
-        b = shape_of(fn)
-        if [a.arg for a in fn.args.args] != ["self", "other"] or len(b) != 2 or b[1] != "return self":
-            fail(fn, f"ArrayBase.{nm}: expected one if/else and `return self`")
-        if b[0] in BASE_IADD:
-            info[key] = "BIInPlace"
-        elif b[0] in BASE_IADD_COPY:
-            info[key] = "BIOnCopy"
-        else:
-            fail(fn, f"ArrayBase.{nm} must be `self.array += other` (or the addition on a copy followed by "
-                     "`self.array = <copy>`) on an initialised / `self.array = other` on an empty container")
+        info[key] = base_iadd_kind(find_func(tree, nm, "ArrayBase"))
     info["base_eq"] = base_eq_kind(find_func(tree, "__eq__", "ArrayBase"))
     init_fn = find_func(tree, "_is_array_initialized")
     if [norm(x) for x in body_no_doc(init_fn)] != ["return data is not None"]:
